@@ -8,12 +8,12 @@
    - `ser : env -> desc -> value -> json` (total, structural on the value) and
      `de : env -> desc -> json -> option value` (fuel = weight of the JSON tree);
    - the hand-written codecs: Span ("id:start-end"), Ident (array of strings, last = name), and
-     semver::VersionReq (a string whose parse . display = id is trusted);
+     semver::VersionReq (Model/VersionReq.v: from_str and Display, the value is held as its Display text);
    - `schema_ok : env -> bool`, the decidable side condition of the round-trip theorem.
 
    Executable definitions only; the theorems are in Proofs/SerdeProofs.v. *)
 From Coq Require Import List NArith ZArith Bool.
-From PV Require Import Lib.ListX Model.Json.
+From PV Require Import Lib.ListX Model.Json Model.VersionReq.
 Import ListNotations.
 
 Inductive codec := CSpan | CIdent | CVersionReq.
@@ -272,13 +272,37 @@ Section WithEnv.
       | _, _ => None
       end.
 
+    (* serde-derive's struct visitor also has visit_seq: a JSON ARRAY is read as the fields in declaration order; when
+       the array is exhausted a `default` field gets Default::default() and any other field is `invalid length` (the
+       missing-Option rule belongs to visit_map only); more elements than fields is an error.  A struct with a flatten
+       field is deserialised through deserialize_map and has no visit_seq. *)
+    Fixpoint de_seq_fields (fs : list field) (l : list json) {struct fs} : option (list value) :=
+      match fs with
+      | [] => match l with [] => Some [] | _ :: _ => None end
+      | f :: fs' =>
+          match l with
+          | j :: l' =>
+              match rec (fdesc f) j, de_seq_fields fs' l' with Some v, Some r => Some (v :: r) | _, _ => None end
+          | [] =>
+              match (if fdefault f then default_of (fdesc f) else None), de_seq_fields fs' [] with
+              | Some v, Some r => Some (v :: r)
+              | _, _ => None
+              end
+          end
+      end.
+
+    Definition seq_ok (fs : list field) : bool := forallb (fun f => negb (fflatten f)) fs.
+
+    Definition de_struct_seq (fs : list field) (l : list json) : option (list value) :=
+      if seq_ok fs then de_seq_fields fs l else None.
+
     (* payload of variant `tag` *)
     Definition de_payload (sh : shape) (j : json) (de_fields : list field -> list (str * json) -> option (list value)) : option (list value) :=
       match sh with
       | SUnit => match j with JNull => Some [] | _ => None end
       | SNewtype d => match rec d j with Some v => Some [v] | None => None end
       | STuple ds => match j with JArr l => de_tuple ds l | _ => None end
-      | SStruct fs => match j with JObj kvs => de_fields fs kvs | _ => None end
+      | SStruct fs => match j with JObj kvs => de_fields fs kvs | JArr l => de_struct_seq fs l | _ => None end
       end.
 
     (* one named (non-flatten) field, looked up by key among all entries of the object *)
@@ -339,7 +363,11 @@ Section WithEnv.
 
     Definition de_def (df : def) (j : json) : option value :=
       match df with
-      | DefStruct fs => match j with JObj kvs => option_map VStruct (de_fields fs kvs) | _ => None end
+      | DefStruct fs => match j with
+                        | JObj kvs => option_map VStruct (de_fields fs kvs)
+                        | JArr l => option_map VStruct (de_struct_seq fs l)
+                        | _ => None
+                        end
       | DefNewtype _ => None   (* handled without fuel in de_body: the inner type is a primitive *)
       | DefEnum vs =>
           match j with
@@ -368,7 +396,7 @@ Section WithEnv.
       match c, j with
       | CSpan, JStr t => match span_de t with Some (id, s, e) => Some (VSpan id s e) | None => None end
       | CIdent, _ => match ident_de j with Some (p, n) => Some (VIdent p n) | None => None end
-      | CVersionReq, JStr t => Some (VStr t)
+      | CVersionReq, JStr t => option_map VStr (vreq_normalise t)   (* from_str, held as its Display form *)
       | _, _ => None
       end.
 
@@ -517,5 +545,5 @@ Section Typing.
       Forall2 (fun f v => wt (fdesc f) v) fs l -> wt (DRef n) (VEnum tag l)
   | wt_span id s e : id < u16_bound -> s < usize_bound -> e < usize_bound -> wt (DOpaque CSpan) (VSpan id s e)
   | wt_ident p n : wt (DOpaque CIdent) (VIdent p n)
-  | wt_ver s : wt (DOpaque CVersionReq) (VStr s).
+  | wt_ver s : vreq_normal s = true -> wt (DOpaque CVersionReq) (VStr s).   (* a VersionReq = the text Display writes *)
 End Typing.
